@@ -18,6 +18,8 @@ import (
 	"github.com/basecomplextech/spec/mpx"
 
 	"verifharness/engine/netx"
+	"verifharness/engine/report"
+	"verifharness/engine/runner"
 )
 
 // Watchdog is the generous wall-clock bound of the bounded-progress rule (DESIGN §0). Its firing is
@@ -137,5 +139,24 @@ func Settle(d time.Duration, f func() bool) bool {
 		}
 		time.Sleep(2 * time.Millisecond)
 		runtime.Gosched()
+	}
+}
+
+// Bounded runs a library call that must return; if it is still blocked after the watchdog this is a
+// progress violation of the property under test (reported with the goroutine dump), never a hang of
+// the check itself. The call keeps running in its goroutine.
+func Bounded(c *runner.Cfg, res *report.Result, key, what string, f func()) bool {
+	done := make(chan struct{})
+	go func() {
+		defer close(done)
+		f()
+	}()
+	select {
+	case <-done:
+		return true
+	case <-time.After(Watchdog):
+		c.Abort.Store(true)
+		res.Violate(key, fmt.Sprintf("%s did not return within %v:\n%s", what, Watchdog, Goroutines(8)), nil)
+		return false
 	}
 }
